@@ -158,6 +158,11 @@ F = {
     "nul_chars": lambda n: "\0" * n,
     "crlf_lines": lambda n: "a\r\n" * n,
 }
+# an unclosed opener followed by a long run of one character: every character of the run is visited by the
+# validation-mode scan behind the opener
+for _ch, _nm in (("*", "stars"), ("_", "underscores"), ("~", "tildes"), ("`", "backticks"), ("<", "angles"), ("&", "amps"), ("\\", "backslashes"), ("!", "bangs"), ("(", "parens"), ("a", "letters"), (" ", "spaces"), ("\"", "quotes")):
+    F[f"bracket_then_{_nm}"] = (lambda c: (lambda n: "[" + c * n))(_ch)
+    F[f"image_then_{_nm}_closed"] = (lambda c: (lambda n: "![" + c * n + "](u)"))(_ch)
 # families whose guard only engages beyond a certain size are measured from there on
 MIN_L = {"table_sparse_square": 3000}
 NEST = {
